@@ -629,6 +629,94 @@ def run(ctx):
                           {"fn": "ec.verify", "what": what}, force=True)
 
         # ------------------------------------------------------------------
+        # wrong keys that SHARE METADATA with the right key, over HISTORIES: after a successful
+        # verification with key A, the same token with key B (same kid / alg / use, other
+        # material) must still be rejected; A re-imported must still verify
+        # ------------------------------------------------------------------
+        fam_pairs = [("HS256", K["oct32"], K["oct32b"]), ("HS384", K["oct64"], K["oct32"]), ("HS512", K["oct64"], K["oct16"]),
+                     ("RS256", K["rsa"], None), ("PS256", K["rsa"], None), ("ES256", K["p256"], K["p256b"]),
+                     ("EdDSA", K["ed25519"], K["ed25519b"])]
+        for alg, ka, kb in fam_pairs:
+            if kb is None:
+                kb = J.second_rsa()
+            metas = [{"kid": "shared-" + alg}, {"kid": "shared2-" + alg, "alg": alg, "use": "sig"}, {"kid": ka.thumbprint()}]
+            for mi, meta in enumerate(metas):
+                A = J.with_meta(ka, True, **meta)
+                Apub = J.with_meta(ka, False, **meta)
+                B = J.with_meta(kb, False, **meta)
+                Arei = J.with_meta(ka, False, **meta)
+                pl = b"history-" + alg.encode()
+                hdr = {"alg": alg, "kid": meta["kid"]}
+                tok = jws.serialize_compact(dict(hdr), pl, A, [alg]).encode()
+                val = jws.serialize_json({"protected": dict(hdr)}, pl, A, [alg])
+                rec.take()
+                orig = (hdr, pl)
+                if mi % 2 == 0:
+                    R.des_compact(tok, Apub, [alg], False, orig, "valid")
+                    R.des_compact(tok, B, [alg], True, orig, "same-kid-other-key-after-right-key:" + alg)
+                    R.des_compact(tok, Arei, [alg], False, orig, "valid")
+                    R.des_compact(tok, KeySet([Apub]), [alg], False, orig, "valid")
+                    R.des_compact(tok, KeySet([B]), [alg], True, orig, "keyset-reloaded-same-kid:" + alg)
+                    R.des_compact(tok, KeySet([B, K["oct16"]]), [alg], True, orig, "keyset-reloaded-same-kid:" + alg)
+                else:
+                    R.des_compact(tok, B, [alg], True, orig, "same-kid-other-key-before-right-key:" + alg)
+                    R.des_compact(tok, Apub, [alg], False, orig, "valid")
+                    R.des_compact(tok, B, [alg], True, orig, "same-kid-other-key-after-right-key:" + alg)
+                R.des_json(val, Apub, [alg], False, ([hdr], pl), "valid")
+                R.des_json(val, B, [alg], True, ([hdr], pl), "same-kid-other-key-after-right-key:" + alg)
+                R.des_json(val, lambda obj, _b=B: _b, [alg], True, ([hdr], pl), "same-kid-other-key-after-right-key:" + alg)
+        # same kid across HS256 / HS384 / HS512 with different secrets
+        hk = {a: J.with_meta(K[n], True, kid="one-kid") for a, n in (("HS256", "oct32"), ("HS384", "oct64"), ("HS512", "oct16"))}
+        htok = {a: jws.serialize_compact({"alg": a, "kid": "one-kid"}, b"x-" + a.encode(), hk[a], [a]).encode() for a in hk}
+        rec.take()
+        for a in hk:
+            R.des_compact(htok[a], hk[a], [a], False, ({"alg": a, "kid": "one-kid"}, b"x-" + a.encode()), "valid")
+        for a in hk:
+            for b_ in hk:
+                if a != b_:
+                    R.des_compact(htok[a], hk[b_], [a], True, None, "same-kid-other-key-after-right-key:cross-" + a)
+        # every per-token "other key" fault again with the other key carrying the right key's kid
+        for (tok, alg, kn, vk, h, pl, b64, parg) in compact_tokens[::(7 if quick else 1)]:
+            on = J.other_key_same_type(kn)
+            if on and "kid" in h:
+                R.des_compact(tok, vk, [alg], False, (h, pl), "valid", rfc7797=b64 is not None, payload_arg=parg, coq=False)
+                R.des_compact(tok, J.with_meta(K[on], False, kid=h["kid"]), [alg], True, (h, pl), "same-kid-other-key-after-right-key:token",
+                              rfc7797=b64 is not None, payload_arg=parg)
+
+        # ------------------------------------------------------------------
+        # jwt.decode without a JWERegistry must never return a Token for an input that carries
+        # no valid signature: JWEs encrypted to the verifier's own public key, other non-JWS values
+        # ------------------------------------------------------------------
+        from joserfc import jwe as _jwe, jwt as _jwt2
+        from joserfc.jwk import OKPKey as _OKP
+        evil = b'{"sub":"attacker","admin":true}'
+        x25519 = _OKP.generate_key("X25519", {"kid": "x25519"})
+        targets = [(K["rsa"], {"alg": "RSA-OAEP", "enc": "A128GCM"}), (K["p256"], {"alg": "ECDH-ES+A128KW", "enc": "A128GCM"}),
+                   (K["p256"], {"alg": "ECDH-ES", "enc": "A128CBC-HS256"}), (K["p384"], {"alg": "ECDH-ES+A256KW", "enc": "A256GCM"}),
+                   (x25519, {"alg": "ECDH-ES", "enc": "A128GCM"}), (K["oct16"], {"alg": "A128KW", "enc": "A128GCM"}),
+                   (K["oct32"], {"alg": "dir", "enc": "A128CBC-HS256"})]
+        nonjws = []
+        for k, prot in targets:
+            v = call(_jwe.encrypt_compact, dict(prot), evil, J.pubkey_of(k) if k.key_type != "oct" else k)
+            if v[0] == "ok":
+                nonjws.append((v[1], k, "jwe:" + prot["alg"]))
+        nonjws += [("a.b.c.d.e", K["rsa"], "five-segments"), ("a.b.c.d", K["rsa"], "four-segments"), ("a.b", K["oct32"], "two-segments"),
+                   (b64u(b'{"alg":"none"}').decode() + "." + b64u(evil).decode() + ".", K["oct32"], "alg-none")]
+        rec.take()
+        for value, k, what in nonjws:
+            for kf_name, kf in (("key", k), ("set", KeySet([k, K["oct64"]])), ("callable", lambda obj, _k=k: _k)):
+                for kw_name, kw in (("registry-omitted", {}), ("algorithms-jws-only", {"algorithms": ["RS256", "ES256", "HS256", "EdDSA"]}),
+                                    ("jws-registry", {"registry": jws.JWSRegistry()}), ("algorithms-none", {"algorithms": None})):
+                    r = call(_jwt2.decode, value, kf, **kw)
+                    rec.take()
+                    ctx.note_case(("jwt-nonjws", what, kf_name, kw_name))
+                    R.note("jwt.decode:non-jws:" + what.split(":")[0])
+                    if r[0] == "ok":
+                        ctx.violation({"kind": "jwt-decode-unsigned", "input": what.split(":")[0]},
+                                      "jwt.decode (%s, key as %s) returned claims %r for an input that carries no signature (%s)" % (kw_name, kf_name, r[1].claims, what),
+                                      {"fn": "jwt.decode", "value": value, "key": k.as_dict(), "kwargs": kw_name, "what": what})
+
+        # ------------------------------------------------------------------
         # the algorithm wrappers alone (none, ECDSA length gate)
         # ------------------------------------------------------------------
         none_alg = jws.JWSRegistry.algorithms["none"]
